@@ -59,7 +59,7 @@ def _case(draw):
         for _ in range(n):
             d = draw(delta_s)
             t += d
-            act = draw(st.sampled_from(["on", "on", "off", "off", "off", "ts", "ks", "tempo", "text", "cc", "pc"]))
+            act = draw(st.sampled_from(["on", "on", "off", "off", "off", "ts", "ks", "tempo", "text", "cc", "pc", "bend"]))
             ch, p = draw(st.integers(0, 2)), draw(st.sampled_from([60, 61, 72]))
             if act == "on" and (ch, p) not in sounding:
                 sounding[(ch, p)] = t
@@ -84,6 +84,14 @@ def _case(draw):
                 events.append([d, "cc", ch, draw(st.integers(0, 127)), draw(st.integers(0, 127))])
             elif act == "pc":
                 events.append([d, "pc", ch, draw(st.integers(0, 127))])
+            elif act == "bend":
+                # channel messages the library does not represent (pitch bend, aftertouch, poly pressure, sysex), usually in
+                # dense runs; each carries delta time that the following events depend on
+                events.append([d, draw(st.sampled_from(["pw", "at", "pt", "sx"])), ch])
+                for _ in range(draw(st.integers(0, 4))):
+                    d2 = draw(st.one_of(st.integers(1, 5), delta_s))
+                    t += d2
+                    events.append([d2, draw(st.sampled_from(["pw", "at", "pt", "pw"])), ch])
             else:
                 events.append([d, "tempo" if act == "tempo" else "text"])
         leave_open = draw(st.integers(0, 5)) == 0       # ill-formed track: some notes are never closed
@@ -144,6 +152,14 @@ def _mido_file(case):
                 tr.append(mido.Message("control_change", channel=e[2], control=e[3], value=e[4], time=d))
             elif kind == "pc":
                 tr.append(mido.Message("program_change", channel=e[2], program=e[3], time=d))
+            elif kind == "pw":
+                tr.append(mido.Message("pitchwheel", channel=e[2], pitch=100, time=d))
+            elif kind == "at":
+                tr.append(mido.Message("aftertouch", channel=e[2], value=50, time=d))
+            elif kind == "pt":
+                tr.append(mido.Message("polytouch", channel=e[2], note=60, value=50, time=d))
+            elif kind == "sx":
+                tr.append(mido.Message("sysex", data=[1, 2, 3], time=d))
             elif kind == "tempo":
                 tr.append(mido.MetaMessage("set_tempo", tempo=500000, time=d))
             else:
